@@ -210,6 +210,7 @@ def build(src):
           Rule("D7.optional-bool", r"\bif\s*\(\s*default_\s*\)", "if (self->default_has)"),
           Rule("D7.env-get", r"nitro::env::get\((?:env\(\)|base_env\(&self->b\))\)", "nitro_env_get(base_env(&self->b))"),
           Rule("D7.string-empty", r"!env_value\.empty\(\)", "(env_value.len != 0)"),
+          Rule("D7.string-empty", r"!element\.empty\(\)", "(element.len != 0)"), Rule("D7.string-empty", r"\b(element|env_value)\.empty\(\)", r"(\1.len == 0)"),
           Rule("D7.getline-split", r"std::string element;\s*std::stringstream str;\s*str << env_value;", "struct ostr element; struct ogetline str; ogetline_init(&str, &env_value);"),
           Rule("D7.getline", r"std::getline\(str,\s*element,\s*';'\)", "ogetline_next(&str, &element)"),
           Rule("D7.vector-index", r"\bvalue_\[i\]", "(*ovec_at(&self->value_, i))"),
